@@ -14,7 +14,8 @@ EXTENDS Wire, MC_C02_consts, TLC
 VARIABLES x,        \* the case [line, tls, hdrs]
           fam,      \* family the case was drawn from
           phase,    \* "in" (enumerated) -> "done" (evaluated)
-          res       \* evaluation of the transcription: al[p] = Claims(p) alone, det[l] = Detect(C_Lists[l])
+          res       \* evaluation: al[p] = Claims(p) alone, det[l] = Detect(C_Lists[l]), m[p] = documented shape matches,
+                    \* pos = header lines consumed by detection with the shipped list, dt = determinism
 mvars == <<x, fam, phase, res>>
 
 RECURSIVE CatN(_, _, _)
@@ -43,17 +44,22 @@ ASSUME UNION {{C_Lists[l][i] : i \in 1..Len(C_Lists[l])} : l \in 1..Len(C_Lists)
 ASSUME Listed \subseteq Protocols /\ C_Lists[1] = C_Shipped
 NL == Len(C_Lists)
 
-\* one evaluation of the transcription per case: every test alone, getProtocol for every list, getProtocol again
-\* from every connection state an earlier test can leave behind; and of the documented shapes (table m)
+\* One evaluation per case.  (\E v \in {e} binds v to the VALUE of e: TLC re-evaluates LET definitions at every use,
+\* which made this model four times slower.)
+\*   px   BaseGopherProtocol.__init__ / the split each test performs
+\*   tst  every test alone on a fresh connection; getProtocol for every list (with the connection state it leaves)
+\*   res  the observable part + documented shapes + getProtocol again from every connection state an earlier
+\*        test can leave behind
 Compute == /\ phase = "in" /\ phase' = "done"
-           /\ LET px    == Parse(x)
-                  det   == [l \in 1..NL |-> Detect(C_Lists[l], px)]
-                  dirty == DirtyConns(Listed, px)
-              IN res' = [al  |-> [p \in Listed |-> Claims(p, px, FreshConn).r],
-                         det |-> [l \in 1..NL |-> det[l].p],
-                         m   |-> MatchTable(Listed, x),
-                         pos |-> det[1].conn.pos,
-                         dt  |-> \A l \in 1..NL : DeterministicAt(C_Lists[l], px, dirty, det[l].p)]
+           /\ \E px \in {Parse(x)} :
+              \E tst \in {[al  |-> [p \in Listed |-> Claims(p, px, FreshConn)],
+                           det |-> [l \in 1..NL |-> Detect(C_Lists[l], px)]]} :
+                res' = [al  |-> [p \in Listed |-> tst.al[p].r],
+                        det |-> [l \in 1..NL |-> tst.det[l].p],
+                        m   |-> MatchTable(Listed, x),
+                        pos |-> tst.det[1].conn.pos,
+                        dt  |-> \A l \in 1..NL :
+                                   DeterministicAt(C_Lists[l], px, {tst.al[p].conn : p \in Listed} \ {FreshConn}, tst.det[l].p)]
            /\ UNCHANGED <<x, fam>>
 Next == Compute
 Spec == Init /\ [][Next]_mvars
